@@ -146,6 +146,17 @@ CHECKS = {
   "design_ref": "DESIGN.md §5 C14", "note": "Trusted: Lean kernel; translator facts; kernel isolation between instances is measured.",
   "technique": "Lean 4 proofs (channel FIFO by induction) + regenerated capacity/global-state facts + multi-Watcher differential scenarios",
  },
+ "C19": {
+  "text": "Theorems over the model of the recursive tail of handleEvent / recursive removePath (after the repair of F3): a "
+          "rename old->new rewrites exactly the entries at or below old (separator-aware) to new++suffix, keeps all wds, "
+          "leaves siblings that merely share a string prefix untouched; removing a recursive root drops exactly the root and "
+          "the entries strictly below it; a new directory is registered in the same step that returns its Create event. "
+          "Witness theorems exhibit what the pre-repair string-prefix tests did (dir1/dir10, r/r2). Tie D: real-kernel (tee) "
+          "sessions with recursion enabled compared with the model after every step, plus an independent true-path / coverage "
+          "monitor.",
+  "design_ref": "DESIGN.md §5 C19, §6 F3", "note": "Trusted: Lean kernel; harness/hooks (VerifSetRecurse); kernel answers for registrations are inputs derived from /proc fdinfo by inode identity.",
+  "technique": "Lean 4 proofs over the recursive-watch model + differential correspondence on real-kernel streams + true-path monitor",
+ },
  "C20": {
   "text": "Theorems (all inputs): splitLines is injective (lines concatenate to text+newline); any opcode list passing the "
           "executable check validOps (contiguous tiling of both texts from (0,0) to the ends, equal ranges really equal, "
